@@ -25,6 +25,8 @@ Called from extract.py (`gen_tx`).  Extracted from /repo/src (comments stripped)
                          that leaves the transaction and `handle_discard` clear / take it;
   * `Gen.watchSetClearedWhenTransactionEnds`  `handle_discard` and every exit of `handle_exec` clear `watched_keys`;
   * `Gen.deferredFramesFirst`  in `process_connection` the frames kept back behind a blocking pop come before the socket read;
+  * `Gen.controlArityUnchecked`  no `matches!(command.as_str(), "MULTI" | "EXEC" | "DISCARD" | "UNWATCH") && parts.len() != 1` test in process_frame;
+  * `Gen.execClientUnderConnZero`  `handle_exec` does not treat CLIENT itself (it then runs under connection id 0);
   * `Gen.txUnrecognised`  what could NOT be read off the source.  Every fact is extracted on its own; a
                          shape that is not recognised yields the PESSIMISTIC value (the deviation is assumed)
                          and an entry here, never a definition that does not elaborate: the model and the
@@ -150,6 +152,16 @@ def facts(src, strip_comments, fn_body, repo=None):
         if i_def >= 0 and i_read >= 0:
             out["deferred_first"] = i_def < i_read
 
+    # ---- arity of MULTI / EXEC / DISCARD / UNWATCH tested before their arms in process_frame?
+    out["arity_unchecked"] = None
+    if pf is not None and re.search(r'"MULTI"\s*=>', pf):
+        out["arity_unchecked"] = re.search(
+            r'matches!\(\s*command\.as_str\(\)\s*,\s*"MULTI"\s*\|\s*"EXEC"\s*\|\s*"DISCARD"\s*\|\s*"UNWATCH"\s*\)\s*&&\s*parts\.len\(\)\s*!=\s*1', pf) is None
+    # ---- commands about the issuing connection (CLIENT ..) run by EXEC under the dummy id 0?
+    out["client_conn_zero"] = None
+    if he is not None and pcp is not None:
+        out["client_conn_zero"] = re.search(r'CLIENT', he) is None
+
     # ---- SELECT / blocking pops inside EXEC
     out["select_ignored"] = None
     if pcp is not None and he is not None:
@@ -239,6 +251,12 @@ def generate(src, strip_comments, fn_body, header, repo=None):
     item("`process_connection` puts `conn.deferred_frames` (the rest of a batch kept back behind a blocking pop that blocked) in front of what it reads from the socket",
          "deferredFramesFirst", "Bool", None if f["deferred_first"] is None else b(f["deferred_first"]), "false",
          "`frames_to_process.append(&mut conn.deferred_frames)` / `conn.read()` not found in process_connection")
+    item("`process_frame` runs MULTI / EXEC / DISCARD / UNWATCH without testing `parts.len() != 1` first (surplus arguments are ignored)",
+         "controlArityUnchecked", "Bool", None if f["arity_unchecked"] is None else b(f["arity_unchecked"]), "true",
+         "MULTI arm of process_frame not found")
+    item("`handle_exec` has no case of its own for CLIENT: a queued CLIENT command runs under the dummy connection id 0",
+         "execClientUnderConnZero", "Bool", None if f["client_conn_zero"] is None else b(f["client_conn_zero"]), "true",
+         "handle_exec / process_command_parts not found")
     L.append("/-- what translator/tx_facts.py could not read off the source (pessimistic values above) -/")
     L.append("def txUnrecognised : List String := [%s]" % ", ".join('"%s"' % u.replace("\\", "/").replace('"', "'") for u in unknown))
     L += ["", "end Ferrous.Gen", ""]
